@@ -1022,7 +1022,22 @@ class FrameAnalysis:
         ok, det = False, "no return after the hit loop"
         S, N = R.STACK, R.NODE
 
+        # names bound once, before the loop and before NODE is rebound, to the node scan_node was given
+        rebinds = {}
+        for n_ in ast.walk(self.sn.node):
+            if isinstance(n_, ast.Name) and isinstance(n_.ctx, ast.Store):
+                rebinds[n_.id] = rebinds.get(n_.id, 0) + 1
+        root_alias = set()
+        for st_ in body[:idx]:
+            if any(isinstance(x_, ast.Name) and x_.id == N and isinstance(x_.ctx, ast.Store) for x_ in ast.walk(st_)):
+                break
+            if isinstance(st_, ast.Assign) and len(st_.targets) == 1 and isinstance(st_.targets[0], ast.Name) and common.is_name(st_.value, N) and \
+                    rebinds.get(st_.targets[0].id, 0) == 1:
+                root_alias.add(st_.targets[0].id)
+
         def is_root_expr(e):
+            if isinstance(e, ast.Name) and e.id in root_alias:
+                return True
             # STACK[0] if STACK else NODE
             if isinstance(e, ast.IfExp):
                 if self.is_stack_truth(e.test) and is_stack0(e.body) and common.is_name(e.orelse, N):
